@@ -63,6 +63,13 @@ try:
     print(f"SEED {name}: suite_green_with_change={suite_ok} demo_fails_with_change={fails_with} demo_passes_without={passes_without}")
 finally:
     subprocess.run(["git", "-C", "/repo", "worktree", "remove", "--force", wt], capture_output=True)
+if os.environ.get("SEED_CONFIRM_ONLY") == "1":
+    # re-confirmation of a stored seed (the confirm step is not safe to run concurrently with others: shared target dir)
+    mp = os.path.join(V, "seeded", name, "meta.json")
+    old_meta = json.load(open(mp))
+    old_meta["ran"] = meta["ran"]; old_meta["confirmed"] = meta["confirmed"]
+    json.dump(old_meta, open(mp, "w"), indent=1)
+    sys.exit(0)
 # run the checks against it (in a scratch worktree via VERIF_REPO while other work reads /repo;
 # SEED_IN_REPO=1 applies the patch to /repo itself and undoes it afterwards)
 results = {}
